@@ -418,6 +418,7 @@ def run(ctx):
     _run_rules(ctx)
     from .. import boundaries
     boundaries.check(ctx, 'C08.RB', 'C08')
+    boundaries.check_calls(ctx, 'C08.RC', 'C08')
     boundaries.check_guards(ctx, 'C08.RG', 'C08')
     boundaries.check_amounts(ctx, 'C08.RA', 'C08')
     boundaries.check_writes(ctx, 'C08.RW', 'C08')
